@@ -1,6 +1,7 @@
 (* C02 — property theorems only.  [E : env] is an arbitrary configuration: arbitrary three-valued
    == and != on values (NaN, equal-not-identical, raising, incoherent), arbitrary validation function
-   (rejecting, converting), any default, any trait kind / comparison mode, any list of handlers of the
+   (rejecting, converting), any default, any trait kind / comparison mode, traits that store the validated value or (Expression, AdaptsTo) the
+   assigned object itself, any list of handlers of the
    five mechanisms each possibly raising; [wf E] only says that handler ids are distinct.
    Histories are arbitrary lists of assignments, reads and `del` from any start state. *)
 From Coq Require Import List Arith Bool PeanoNat ZArith.
@@ -10,26 +11,15 @@ Local Open Scope nat_scope.
 
 (* the whole law (Law.v, clauses 2-7) holds at every step of every history *)
 Theorem law_holds_on_every_history :
-  forall E, wf E = true -> e_store_original E = false -> forall ops s i, law_hist E i s (run E s ops) = [].
+  forall E, wf E = true -> forall ops s i, law_hist E i s (run E s ops) = [].
 Proof. exact run_law. Qed.
 Print Assumptions law_holds_on_every_history.
-
-(* The hypothesis [e_store_original E = false] excludes traits that store the assigned object instead of the
-   validated one (Expression, AdaptsTo): for those the law is refuted on the current tree (finding F18) — in identity
-   mode, assigning the stored object again calls the handlers with old = new.  The model follows the code. *)
-Theorem law_refuted_when_original_value_is_stored :
-  wf store_original_env = true /\
-  map (fun p => o_calls (snd p)) (run store_original_env None [Assign 10; Assign 10])
-    = [[(1, OVal 6, 10); (10, OVal 6, 10)]; [(1, OVal 10, 10); (10, OVal 10, 10)]] /\
-  law_hist store_original_env 0%Z None (run store_original_env None [Assign 10; Assign 10]) = [102%Z].
-Proof. exact law_refuted_store_original. Qed.
-Print Assumptions law_refuted_when_original_value_is_stored.
 
 (* every handler is called exactly for the assignments that count as a change under the trait's mode
    (Event: every accepted assignment, old = Undefined), with old = readable before and new = validated value,
    in order, and for nothing else: the call list equals a specification that never mentions notifiers *)
 Theorem calls_are_exactly_changes :
-  forall E, wf E = true -> e_store_original E = false -> forall h, In h (e_handlers E) -> forall ops s,
+  forall E, wf E = true -> forall h, In h (e_handlers E) -> forall ops s,
     calls_of (h_id h) (all_calls (run E s ops)) = spec_calls E h s ops.
 Proof. exact calls_exact. Qed.
 Print Assumptions calls_are_exactly_changes.
@@ -41,7 +31,7 @@ Theorem old_new_truthful :
        match e_kind E with
        | TEvent => snd (fst c) = OUndefined /\ snd c = w
        | TNormal _ => snd (fst c) = OVal (readable E s) /\ readable E (fst (step E s o)) = snd c
-                      /\ snd c = (if e_store_original E then v else w)
+                      /\ snd c = new_value E v w
        end)
     \/ (o = Delete /\ snd (fst c) = OVal (readable E s) /\ snd c = e_default E
         /\ readable E (fst (step E s o)) = e_default E).
@@ -50,8 +40,7 @@ Print Assumptions old_new_truthful.
 
 (* all mechanisms see the same (old, new) sequence when != is false exactly when == is true *)
 Theorem three_mechanisms_agree :
-  forall E, wf E = true -> e_store_original E = false ->
-    forall h1 h2, coherent_eq E -> In h1 (e_handlers E) -> In h2 (e_handlers E) ->
+  forall E, wf E = true -> forall h1 h2, coherent_eq E -> In h1 (e_handlers E) -> In h2 (e_handlers E) ->
     forall ops s,
       map strip (calls_of (h_id h1) (all_calls (run E s ops))) = map strip (calls_of (h_id h2) (all_calls (run E s ops))).
 Proof. exact mechanisms_agree. Qed.
